@@ -54,7 +54,7 @@ def ssmcase(c):
          f"C_ := {qm(c['C'])}; R_ := {qm(c['R'])} |}}")
     fc = "[" + "; ".join(qm(m) for m in c["fc"]) + "]"
     sc = "[" + "; ".join(qm(m) for m in c["sc"]) + "]"
-    return f"CKal {s} {qm(c['ys'])} {qm(c['fm'])} {fc} {qm(c['sm'])} {sc} {q(c['lml'])}"
+    return f"CKal {n(c.get('unit', 0))} {s} {qm(c['ys'])} {qm(c['fm'])} {fc} {qm(c['sm'])} {sc} {q(c['lml'])}"
 
 
 def run(ctx):
